@@ -11,6 +11,7 @@ import (
 func (s *session) exec(op string) string {
 	s.script = append(s.script, op)
 	t := strings.Fields(op)
+	s.curOp = t[0]
 	u := func(i int) uint { v, _ := strconv.ParseUint(t[i], 10, 64); return uint(v) }
 
 	switch t[0] {
